@@ -428,7 +428,7 @@ def check_grown(case):
 
 
 SUBS = [
-    Sub('reduce', cases(), check, quick=12000, thorough=120000, tag=tag,
+    Sub('reduce', cases(), check, quick=20000, thorough=160000, tag=tag,
         rule='frame.f(axis, skipna) vs NumPy on each column/row alone'),
     Sub('lines', None, check_line, quick=0, thorough=0, tag=tag, enum=enum_lines,
         rule='complete enumeration of single-row / single-column frames over 5 column kinds, both layouts, every function, skipna, axis'),
